@@ -174,8 +174,14 @@ func TestC17_Concurrent(t *testing.T) {
 						}
 						parts = append(parts, fmt.Sprintf("%q: %q", "a"+fmt.Sprint(i), "${"+name+"}"))
 					}
-					parts = append(parts, `"blk": [{"x": "${`+firstName(base)+`}"}, {"x": 1}]`)
-					src := "{" + strings.Join(parts, ",") + "}"
+					nAttrs := len(parts)
+					blkPart := `"blk": [{"x": "${` + firstName(base) + `}"}, {"x": 1}]`
+					if rapid.Bool().Draw(t, "blk_as_object") {
+						blkPart = `"blk": {"x": "${` + firstName(base) + `}"}`
+					}
+					at := rapid.IntRange(0, len(parts)).Draw(t, "blk_at")
+					ordered := append(append(append([]string{}, parts[:at]...), blkPart), parts[at:]...)
+					src := "{" + strings.Join(ordered, ",") + "}"
 					c.Set("json", src)
 					jsonSrc = src
 					f, diags := hcljson.Parse([]byte(src), "t.json")
@@ -185,7 +191,7 @@ func TestC17_Concurrent(t *testing.T) {
 					body = f.Body
 					o := hcldec.ObjectSpec{"blk": &hcldec.BlockTupleSpec{TypeName: "blk", Nested: hcldec.ObjectSpec{"x": &hcldec.AttrSpec{Name: "x", Type: cty.DynamicPseudoType}}}}
 					sch := &hcl.BodySchema{Blocks: []hcl.BlockHeaderSchema{{Type: "blk"}}}
-					for i := range parts[:len(parts)-1] {
+					for i := 0; i < nAttrs; i++ {
 						n := "a" + fmt.Sprint(i)
 						o[n] = &hcldec.AttrSpec{Name: n, Type: cty.DynamicPseudoType}
 						sch.Attributes = append(sch.Attributes, hcl.AttributeSchema{Name: n})
@@ -265,6 +271,24 @@ func TestC17_Concurrent(t *testing.T) {
 				return es, b
 			}
 			baseBlocks := freshBlocks(body)
+			// a remaining body (what PartialContent returns for further processing), derived once
+			// and then shared by all goroutines: the first step consumes one name of the schema
+			var firstSchema *hcl.BodySchema
+			if schema != nil {
+				switch {
+				case len(schema.Attributes) > 0 && (len(schema.Blocks) == 0 || rapid.Bool().Draw(t, "first_step_attr")):
+					firstSchema = &hcl.BodySchema{Attributes: []hcl.AttributeSchema{{Name: schema.Attributes[rapid.IntRange(0, len(schema.Attributes)-1).Draw(t, "first_attr")].Name}}}
+				case len(schema.Blocks) > 0:
+					firstSchema = &hcl.BodySchema{Blocks: []hcl.BlockHeaderSchema{schema.Blocks[rapid.IntRange(0, len(schema.Blocks)-1).Draw(t, "first_block")]}}
+				}
+			}
+			restOf := func(b hcl.Body) hcl.Body {
+				if b == nil || firstSchema == nil {
+					return nil
+				}
+				_, rest, _ := b.PartialContent(firstSchema)
+				return rest
+			}
 			// goroutines and their contexts
 			G := rapid.SampledFrom([]int{2, 2, 4, 8, 16}).Draw(t, "goroutines")
 			sharedParent := rapid.Bool().Draw(t, "shared_parent")
@@ -308,6 +332,10 @@ func TestC17_Concurrent(t *testing.T) {
 							op.kind = 5
 							op.target = rapid.IntRange(0, len(schema.Blocks)-1).Draw(t, "first_type")
 						}
+						if firstSchema != nil && rapid.IntRange(0, 2).Draw(t, "shared_rest_op") == 0 {
+							// a request on the remaining body that all goroutines share
+							op.kind = rapid.IntRange(7, 9).Draw(t, "restop")
+						}
 						if kind == 3 && len(baseBlocks) > 0 && rapid.Bool().Draw(t, "shared_block_op") {
 							// decode one of the generated blocks, which all goroutines share
 							op.kind = 6
@@ -317,7 +345,7 @@ func TestC17_Concurrent(t *testing.T) {
 					plans[gi] = append(plans[gi], op)
 				}
 			}
-			run := func(exprs []hcl.Expression, body hcl.Body, blocks []genBlock, gi int, op c17op) (res c17result) {
+			run := func(exprs []hcl.Expression, body hcl.Body, blocks []genBlock, rest hcl.Body, gi int, op c17op) (res c17result) {
 				defer func() {
 					if r := recover(); r != nil {
 						res = c17result{val: fmt.Sprintf("PANIC %v", r)}
@@ -364,6 +392,33 @@ func TestC17_Concurrent(t *testing.T) {
 						dgs = append(dgs, normDiags(d))
 					}
 					return c17result{val: strings.Join(vals, ";"), diags: strings.Join(dgs, "\n")}
+				case 7, 8, 9:
+					if rest == nil {
+						return c17result{val: "no remainder"}
+					}
+					switch op.kind {
+					case 7:
+						cnt, rest2, d := rest.PartialContent(schema)
+						extra := ""
+						if rest2 != nil {
+							attrs, _ := rest2.JustAttributes()
+							var ns []string
+							for n := range attrs {
+								ns = append(ns, n)
+							}
+							sort.Strings(ns)
+							extra = strings.Join(ns, ",")
+						}
+						return c17result{val: contentDump(cnt), diags: normDiags(d), extra: extra}
+					case 8:
+						cnt, d := rest.Content(schema)
+						return c17result{val: contentDump(cnt), diags: normDiags(d)}
+					default:
+						v, d := hcldec.Decode(rest, spec, ctxs[gi])
+						lines := strings.Split(normDiags(d), "\n")
+						sort.Strings(lines)
+						return c17result{val: v.GoString(), diags: strings.Join(lines, "\n")}
+					}
 				case 5:
 					first := &hcl.BodySchema{Blocks: []hcl.BlockHeaderSchema{schema.Blocks[op.target]}}
 					c1, rest, d1 := body.PartialContent(first)
@@ -385,7 +440,14 @@ func TestC17_Concurrent(t *testing.T) {
 			expected := make([][]c17result, G)
 			for gi := range plans {
 				for _, op := range plans[gi] {
-					expected[gi] = append(expected[gi], run(exprs, body, baseBlocks, gi, op))
+					var rest hcl.Body
+					if op.kind >= 7 {
+						// the baseline for a request on a remaining body: the same request on a
+						// remaining body nothing else has been asked of
+						_, fb := fresh()
+						rest = restOf(fb)
+					}
+					expected[gi] = append(expected[gi], run(exprs, body, baseBlocks, rest, gi, op))
 					if strings.HasPrefix(expected[gi][len(expected[gi])-1].val, "PANIC") {
 						c.Failf("panic-sequential", "sequential call panicked: %s", expected[gi][len(expected[gi])-1].val)
 					}
@@ -398,6 +460,10 @@ func TestC17_Concurrent(t *testing.T) {
 			got := make([][]c17result, G)
 			sharedExprs, sharedBody := fresh()
 			sharedBlocks := freshBlocks(sharedBody)
+			sharedRest := restOf(sharedBody)
+			if sharedRest != nil {
+				c.Class("shared_remaining_body")
+			}
 			var inflight, maxInflight int32
 			var wg sync.WaitGroup
 			start := make(chan struct{})
@@ -417,7 +483,7 @@ func TestC17_Concurrent(t *testing.T) {
 								break
 							}
 						}
-						got[gi] = append(got[gi], run(sharedExprs, sharedBody, sharedBlocks, gi, op))
+						got[gi] = append(got[gi], run(sharedExprs, sharedBody, sharedBlocks, sharedRest, gi, op))
 						atomic.AddInt32(&inflight, -1)
 					}
 				}(gi)
